@@ -108,8 +108,9 @@ def stock_case(sc):
         if not (ref.PFlow.run() and ref.EIG.run()):
             return dict(rec, skipped="eig refused (plain flow)")
         As_plain = np.array(_m(ref.EIG.As))
-        ss.TDS.config.test_init = 0 if sc["flow"] == "init_first_untested" else 1
-        ss.TDS.init()
+        ss.TDS.config.test_init = 0 if sc["flow"].endswith("untested") else 1
+        if sc["flow"].startswith("init_first"):
+            ss.TDS.init()
     ok = ss.EIG.run()
     if not ok:
         return dict(rec, skipped="eig refused")
